@@ -8,6 +8,7 @@ import (
 	"fmt"
 	"github.com/libp2p/go-libp2p/core/network"
 	manet "github.com/multiformats/go-multiaddr/net"
+	"sort"
 	"strings"
 	"testing"
 	"testing/synctest"
@@ -249,26 +250,32 @@ type addrClass struct {
 	ip6    bool
 	relay  bool
 	mk     func(i int) string
+	// noTransport: the swarm has no transport for it; it is dropped before the detector is asked
+	// (a request the detector never sees uses up nothing)
+	noTransport bool
 }
 
 var classes = []addrClass{
-	{"priv-tcp4", false, false, false, false, func(i int) string { return fmt.Sprintf("/ip4/192.168.1.%d/tcp/4001", 1+i%200) }},
-	{"pub-tcp4", true, false, false, false, func(i int) string { return fmt.Sprintf("/ip4/1.2.3.%d/tcp/4001", 1+i%200) }},
-	{"priv-udp4", false, true, false, false, func(i int) string { return fmt.Sprintf("/ip4/10.1.0.%d/udp/4001/quic-v1", 1+i%200) }},
-	{"pub-udp4", true, true, false, false, func(i int) string { return fmt.Sprintf("/ip4/1.2.4.%d/udp/4001/quic-v1", 1+i%200) }},
-	{"priv-tcp6", false, false, true, false, func(i int) string { return fmt.Sprintf("/ip6/fd00::%x/tcp/4001", 1+i%200) }},
-	{"pub-tcp6", true, false, true, false, func(i int) string { return fmt.Sprintf("/ip6/2600:1f00::%x/tcp/4001", 1+i%200) }},
-	{"priv-udp6", false, true, true, false, func(i int) string { return fmt.Sprintf("/ip6/fd00::1:%x/udp/4001/quic-v1", 1+i%200) }},
-	{"pub-udp6", true, true, true, false, func(i int) string { return fmt.Sprintf("/ip6/2600:1f00::1:%x/udp/4001/quic-v1", 1+i%200) }},
-	{"loop-udp4", false, true, false, false, func(i int) string { return fmt.Sprintf("/ip4/127.0.0.1/udp/%d/quic-v1", 5000+i%200) }},
-	{"pub-wt4", true, true, false, false, func(i int) string { return fmt.Sprintf("/ip4/1.2.5.%d/udp/4001/quic-v1/webtransport", 1+i%200) }},
+	{"priv-tcp4", false, false, false, false, func(i int) string { return fmt.Sprintf("/ip4/192.168.1.%d/tcp/4001", 1+i%200) }, false},
+	{"pub-tcp4", true, false, false, false, func(i int) string { return fmt.Sprintf("/ip4/1.2.3.%d/tcp/4001", 1+i%200) }, false},
+	{"priv-udp4", false, true, false, false, func(i int) string { return fmt.Sprintf("/ip4/10.1.0.%d/udp/4001/quic-v1", 1+i%200) }, false},
+	{"pub-udp4", true, true, false, false, func(i int) string { return fmt.Sprintf("/ip4/1.2.4.%d/udp/4001/quic-v1", 1+i%200) }, false},
+	{"priv-tcp6", false, false, true, false, func(i int) string { return fmt.Sprintf("/ip6/fd00::%x/tcp/4001", 1+i%200) }, false},
+	{"pub-tcp6", true, false, true, false, func(i int) string { return fmt.Sprintf("/ip6/2600:1f00::%x/tcp/4001", 1+i%200) }, false},
+	{"priv-udp6", false, true, true, false, func(i int) string { return fmt.Sprintf("/ip6/fd00::1:%x/udp/4001/quic-v1", 1+i%200) }, false},
+	{"pub-udp6", true, true, true, false, func(i int) string { return fmt.Sprintf("/ip6/2600:1f00::1:%x/udp/4001/quic-v1", 1+i%200) }, false},
+	{"loop-udp4", false, true, false, false, func(i int) string { return fmt.Sprintf("/ip4/127.0.0.1/udp/%d/quic-v1", 5000+i%200) }, false},
+	{"pub-wt4", true, true, false, false, func(i int) string { return fmt.Sprintf("/ip4/1.2.5.%d/udp/4001/quic-v1/webtransport", 1+i%200) }, false},
 	// neither public nor private (benchmarking net, documentation prefix, outside 2000::/3; link-local
 	// IPv6 is left out: the swarm drops it in another, documented filter):
 	// not public, so the filter must leave them alone
-	{"bench-udp4", false, true, false, false, func(i int) string { return fmt.Sprintf("/ip4/198.18.0.%d/udp/4001/quic-v1", 1+i%200) }},
-	{"doc-udp6", false, true, true, false, func(i int) string { return fmt.Sprintf("/ip6/2001:db8::%x/udp/4001/quic-v1", 1+i%200) }},
-	{"doc-tcp6", false, false, true, false, func(i int) string { return fmt.Sprintf("/ip6/2001:db8::1:%x/tcp/4001", 1+i%200) }},
-	{"nonglobal-tcp6", false, false, true, false, func(i int) string { return fmt.Sprintf("/ip6/200::%x/tcp/4001", 1+i%200) }},
+	{"bench-udp4", false, true, false, false, func(i int) string { return fmt.Sprintf("/ip4/198.18.0.%d/udp/4001/quic-v1", 1+i%200) }, false},
+	{"doc-udp6", false, true, true, false, func(i int) string { return fmt.Sprintf("/ip6/2001:db8::%x/udp/4001/quic-v1", 1+i%200) }, false},
+	{"doc-tcp6", false, false, true, false, func(i int) string { return fmt.Sprintf("/ip6/2001:db8::1:%x/tcp/4001", 1+i%200) }, false},
+	{"nonglobal-tcp6", false, false, true, false, func(i int) string { return fmt.Sprintf("/ip6/200::%x/tcp/4001", 1+i%200) }, false},
+	// public UDP / IPv6 addresses no transport of the swarm can dial (QUIC draft-29, bare udp)
+	{"pub-udp4-no-transport", true, true, false, false, func(i int) string { return fmt.Sprintf("/ip4/1.2.6.%d/udp/4001/quic", 1+i%200) }, true},
+	{"pub-udp6-no-transport", true, true, true, false, func(i int) string { return fmt.Sprintf("/ip6/2600:1f00::2:%x/udp/4001", 1+i%200) }, true},
 }
 
 // TestClassesSelfCheck: the table's public flag is what the library's own classification says
@@ -371,6 +378,7 @@ func TestFilterThroughSwarm(t *testing.T) {
 		}
 		reached := false
 		var trace []string
+		labels := map[string]bool{}
 		hx.Bubble(t, rt, func() {
 			local := keys.Ed(0)
 			ps, err := pstoremem.NewPeerstore()
@@ -415,6 +423,9 @@ func TestFilterThroughSwarm(t *testing.T) {
 				hasU, has6 := false, false
 				for _, ci := range o.ci {
 					c := classes[ci]
+					if c.noTransport {
+						continue // dropped before the detector is asked: no request
+					}
 					if c.public && c.udp {
 						hasU = true
 					}
@@ -443,6 +454,13 @@ func TestFilterThroughSwarm(t *testing.T) {
 					c := classes[o.ci[0]]
 					got := sw.CanDial(target.ID, addrs[0])
 					trace = append(trace, fmt.Sprintf("CanDial(%s)=%v", c.name, got))
+					if c.noTransport {
+						if got {
+							rt.Fatalf("op %d: CanDial(%s %s) = true although no transport can dial it", i, c.name, addrs[0])
+						}
+						labels["query-for-an-address-without-transport"] = true
+						break
+					}
 					if !got && !mayRefuse(c) {
 						rt.Fatalf("op %d: CanDial(%s %s) refused but nothing permits it (readOnly=%v udpBlocked=%v ip6Blocked=%v udpState=%s ip6State=%s)",
 							i, c.name, addrs[0], readOnly, uBlocked, sBlocked, udp.c.State(), ip6.c.State())
@@ -495,7 +513,11 @@ func TestFilterThroughSwarm(t *testing.T) {
 						}
 					}
 					trace = append(trace, fmt.Sprintf("DialPeer(%v succeed=%v sim=%v) dialled=%d refused=%d err=%v", o.Classes, o.Succeed, o.Sim, len(dialled), len(refused), err != nil))
-					if o.Succeed && conn == nil && len(refused) == 0 {
+					dialable := false
+					for _, ci := range o.ci {
+						dialable = dialable || !classes[ci].noTransport
+					}
+					if o.Succeed && conn == nil && len(refused) == 0 && dialable {
 						rt.Fatalf("op %d: dial scripted to succeed failed without a black-hole refusal: %v", i, err)
 					}
 					seen := map[string]bool{}
@@ -506,6 +528,13 @@ func TestFilterThroughSwarm(t *testing.T) {
 							continue
 						}
 						seen[as] = true
+						if c.noTransport {
+							if dialled[as] {
+								rt.Fatalf("op %d: %s (%s) was handed to a transport", i, as, c.name)
+							}
+							labels["dial-with-an-address-without-transport"] = true
+							continue
+						}
 						if refused[as] && dialled[as] {
 							rt.Fatalf("op %d: %s both refused and dialled", i, as)
 						}
@@ -601,7 +630,12 @@ func TestFilterThroughSwarm(t *testing.T) {
 			mode = "readonly"
 		}
 		fp := fmt.Sprintf("%v|%d/%d/%s|%d/%d/%s|%s", readOnly, nU, minU, seqString(preU), n6, min6, seqString(pre6), strings.Join(trace, ";"))
-		stats.Case(name, fp, reached, mode)
+		ls := []string{mode}
+		for l := range labels {
+			ls = append(ls, l)
+		}
+		sort.Strings(ls)
+		stats.Case(name, fp, reached, ls...)
 		if stats.WantSample(name) {
 			stats.Sample(name, map[string]any{"readOnly": readOnly, "udp": fmt.Sprintf("N=%d min=%d pre=%s", nU, minU, seqString(preU)),
 				"ip6": fmt.Sprintf("N=%d min=%d pre=%s", n6, min6, seqString(pre6)), "trace": trace})
